@@ -79,9 +79,8 @@ static bool hasViolation(const RunResult &r, const QString &cls, const QString &
     return false;
 }
 
-static Plan shrink(Engine *e, Plan plan, const QString &cls, const QString &sig, int &execs)
+static Plan shrink(Engine *e, Plan plan, const QString &cls, const QString &sig, int &execs, int budget)
 {
-    const int budget = 1500;
     auto fails = [&](const Plan &p) {
         if (execs >= budget) {
             return false;
@@ -288,7 +287,8 @@ int main(int argc, char **argv)
         }
         int execs = 0;
         const int before = plan.ops.size();
-        Plan small = shrink(e, plan, cls, sig, execs);
+        const int budget = argValue(args, QStringLiteral("--budget"), QStringLiteral("1500")).toInt();
+        Plan small = budget > 0 ? shrink(e, plan, cls, sig, execs, budget) : plan;
         RunResult rs = runPlan(e, small, false);
         QString detail;
         for (const auto &v : rs.violations) {
